@@ -12,7 +12,7 @@ from ..core import SKIP
 ID = "C18"
 RULE = ("ints: 0, +-(10^k-2..10^k+2) for k=0..18, int64 extremes, every permutation and sub-batch of batches <= 4 drawn from "
         "those, random batches mixing widths 1..19 and signs, random int64; integer texts with optional sign and leading zeros "
-        "(also > 19 characters), List[int] join/split; float texts with 1..17 significant digits, optional '-', fraction, "
+        "(also > 19 characters), List[int] join/split; float texts with 1..17 significant digits, optional sign, fraction, "
         "exponent -300..300 (ulp distance to Python float(text) <= 4), repr round trip of random doubles, batch vs single-row "
         "evaluation; integer/float/List[int] columns written and parsed through a delimited buffer. Non-trivial = |n| within 2 "
         "of a power of ten, an int64 extreme, a sign, or a batch with >= 2 widths (ints); >= 2 rows or an exponent or >= 16 "
@@ -26,23 +26,26 @@ ASSUMPTIONS = [
     "npstructures RaggedArray reshape and per-row sum are modelled as unflatten / List.sum",
     "float clause: IEEE-754 rounding of 10.**p, products, sums and the division is NOT modelled; the Lean model gives the exact "
     "decimal the digit placement denotes, the implementation is compared with it and with Python float(text) by ulp distance <= 4",
-    "float mantissa sign domain is '' or '-' (what repr produces); a leading '+' on a float mantissa raises EncodingError and is "
-    "treated as outside the property's domain; exponent sign may be '', '+' or '-'",
+    "float texts: mantissa and exponent may each carry '', '+' or '-'; results that overflow or are subnormal are outside the "
+    "ulp clause (skipped)",
 ]
 TRUSTED_EXTRA = ["Python float(str) / repr(float) (correctly rounded) as the reference for the float clauses"]
 
 MANIFEST = {
     "text": "Lean 4 theorems, all inputs: power_array (the shared -1-fill/jump/cumsum table equals [L-1..0] per row for every list "
-            "of positive row lengths), format_int (ints_to_strings of every batch of int64 values = core Int.repr per element, "
-            "width by integer comparison proved equal to the digit count), parse_int (str_to_int of every batch of signed digit "
-            "strings with leading zeros of any length = value, int64 minimum included), parse_format (round trip), int_lists "
-            "(join element by element), split_join, batch_independent, float_logic_partial (exact decimal denoted by the float "
-            "parser's digit placement = the numeral's value), plus refutations of the rule shipped before the repair "
-            "(10^15-1 -> '0999999999999999', -2^63 -> '-2'). Correspondence of the real strops functions with the Lean model, the "
-            "Lean spec and an independent Python oracle; float rounding by ulp distance to float(text).",
-    "note": "IEEE rounding (float parse within 4 ulps, repr round trip) is only corresponded, not proved: float_logic_partial covers "
-            "the digit placement / dot / exponent logic over exact decimals. The repr round trip is not bit-exact in the shipped "
-            "code (1-3 ulps off for ~30% of doubles): recorded as a known finding.",
+            "of positive row lengths), width_spec + format_int (ints_to_strings of every batch of int64 values = core Int.repr per "
+            "element; the repaired integer digit count is proved equal to the number of digits), parse_int (str_to_int of every "
+            "batch of signed digit strings with leading zeros of any length = value, int64 minimum included), parse_format and "
+            "spec_roundtrip (round trips), int_lists / split_join / int_lists_roundtrip (List[int] join and split element by "
+            "element), batch_independent (a batch is the concatenation of its one-row results), float_logic_partial and "
+            "float_logic_sci_partial (the exact decimal denoted by the float parser's validity check, sign/dot handling, digit "
+            "placement and exponent = the numeral's value), plus refutations of the rule shipped before the repair "
+            "(10^15-1 -> '0999999999999999', -2^63 -> '-2'). Correspondence of the real strops functions (and int/float/List[int] "
+            "columns through a delimited buffer) with the Lean model, the Lean spec and an independent Python oracle; float "
+            "rounding by ulp distance (<= 4) to Python float(text); repr round trip compared bit-exactly.",
+    "note": "IEEE rounding (float parse within 4 ulps, repr round trip) is only corresponded, not proved: the float_logic theorems "
+            "cover the logic over exact decimals m*10^e. The repr round trip is not bit-exact in the shipped code (1-3 ulps off for "
+            "~30% of doubles): known finding float_roundtrip:inexact-within-4ulp.",
     "technique": "Lean 4 proof (induction over the ragged power table and digit strings) + differential correspondence with the implementation",
     "design": "§6 C18",
 }
@@ -107,7 +110,7 @@ def parse_float_text(t):
             return None
         exp = int(xs) * (-1 if x[:1] == "-" else 1)
     neg = s.startswith("-")
-    if neg:
+    if neg or s.startswith("+"):
         s = s[1:]
     if "." in s:
         i, f = s.split(".", 1)
@@ -172,8 +175,11 @@ def _float_text(rng, nd=None):
             t = "0" + t
         if t.startswith("0.") and rng.random() < 0.3:
             t = "0." + "0" * rng.randint(1, 6) + t[2:]    # small magnitudes
-    if rng.random() < 0.4:
+    sg = rng.random()
+    if sg < 0.4:
         t = "-" + t
+    elif sg < 0.5:
+        t = "+" + t
     if rng.random() < 0.5:
         e = rng.choice([rng.randint(-300, 300), rng.randint(-30, 30), rng.choice([-300, -1, 0, 1, 22, 23, 300])])
         t += "e" + rng.choice(["", "+"] if e >= 0 else ["-"]) + (str(abs(e)) if rng.random() < 0.8 else "%02d" % abs(e))
@@ -209,13 +215,13 @@ def cases(tier, rng):
             yield {"op": "fmt", "ns": [v, rng.choice([0, 7, -3])]}
             yield {"op": "fmt", "ns": [rng.choice([I64MAX, I64MIN + 1, 10 ** 18]), v]}
     # every permutation / sub-batch of small batches (independence clause)
-    for _ in range(60 if big else 8):
+    for _ in range(150 if big else 8):
         base = [rng.choice(S) if rng.random() < 0.6 else _rand_int(rng) for _ in range(rng.choice([2, 3, 4]))]
         for k in range(1, len(base) + 1):
             for sub in itertools.permutations(range(len(base)), k):
                 yield {"op": "fmt", "ns": [base[i] for i in sub]}
                 yield {"op": "parse", "rows": [str(base[i]) for i in sub]}
-    for _ in range(3000 if big else 300):
+    for _ in range(12000 if big else 300):
         n = rng.choice([1, 2, 3, 5, 8, 20])
         yield {"op": "fmt", "ns": [rng.choice(S) if rng.random() < 0.3 else (rng.randint(I64MIN, I64MAX) if rng.random() < 0.3 else _rand_int(rng)) for _ in range(n)]}
     # ---- parsing
@@ -227,15 +233,15 @@ def cases(tier, rng):
             yield {"op": "parse1", "s": str(v)}
             yield {"op": "parse1", "s": "00" + str(v)}
     yield {"op": "parse", "rows": [str(v) for v in S]}
-    for _ in range(3000 if big else 300):
+    for _ in range(12000 if big else 300):
         n = rng.choice([1, 2, 3, 5, 8])
         yield {"op": "parse", "rows": [_int_text(rng) for _ in range(n)]}
     # round trip through the implementation's own formatter
-    for _ in range(1000 if big else 100):
+    for _ in range(4000 if big else 100):
         n = rng.choice([1, 2, 4, 9])
         yield {"op": "roundtrip", "ns": [rng.choice(S) if rng.random() < 0.5 else rng.randint(I64MIN, I64MAX) for _ in range(n)]}
     # ---- int lists
-    for _ in range(1500 if big else 200):
+    for _ in range(6000 if big else 200):
         rows = [[rng.choice(S) if rng.random() < 0.3 else _rand_int(rng) for _ in range(rng.choice([0, 1, 1, 2, 3, 6]))]
                 for _ in range(rng.choice([1, 2, 3, 5]))]
         if not any(rows):
@@ -245,23 +251,23 @@ def cases(tier, rng):
         yield {"op": "splitparse", "text": ",".join(_int_text(rng, v) for v in line)}
     # ---- floats
     for nd in range(1, 18):
-        for _ in range(400 if big else 25):
+        for _ in range(1500 if big else 25):
             n = rng.choice([1, 1, 2, 3, 6])
             rows = [_float_text(rng, nd if i == 0 else None) for i in range(n)]
             yield {"op": "fparse", "rows": rows}
-    for t in ["0", "0.0", "-0.0", "1", "1.", ".5", "-.5", "0.1", "0.30000000000000004", "1e0", "1e22", "1e23", "1.5e-300",
+    for t in ["0", "0.0", "-0.0", "1", "1.", ".5", "-.5", "+1.5", "+.5", "+3", "+2.5e+3", "0.1", "0.30000000000000004", "1e0", "1e22", "1e23", "1.5e-300",
               "9.999999999999999e22", "123456789012345678", "1.7976931348623157e308", "2.2250738585072014e-308", "1e-300", "1e300",
               "4.9e-300", "00012.5000", "100000000000000000000.0", "0.000000000000000000001"]:
         yield {"op": "fparse", "rows": [t]}
         yield {"op": "fparse", "rows": [t, "12345.678", "-1e-5"]}
-    for _ in range(300 if big else 40):
+    for _ in range(1000 if big else 40):
         n = rng.choice([1, 2, 5, 40])
         yield {"op": "froundtrip", "xs": [f2h(_finite(_rand_double(rng))) for _ in range(n)]}
-    for _ in range(400 if big else 40):
+    for _ in range(1500 if big else 40):
         rows = [_float_text(rng) for _ in range(rng.choice([2, 3, 4]))]
         yield {"op": "fbatch", "rows": rows}
     # ---- columns of files (delimited buffer: int, float and List[int] columns)
-    for _ in range(300 if big else 30):
+    for _ in range(1000 if big else 30):
         n = rng.choice([1, 2, 3, 6])
         yield {"op": "column", "ints": [rng.choice(S) if rng.random() < 0.4 else _rand_int(rng) for _ in range(n)],
                "unsigned": rng.random() < 0.5,
@@ -481,8 +487,12 @@ def finding_key(c, got, exp):
         d = max(ulps(float.fromhex(g), float.fromhex(e)) for g, e in zip(got["back"], exp["back"]))
         return "float_roundtrip:inexact-within-4ulp" if d <= ULP_TOL else "float_roundtrip:off-by-more-than-4ulp"
     if op == "fparse":
+        if isinstance(got, dict) and got.get("err") == "encoding" and any(t.startswith("+") for t in c["rows"]):
+            return "str_to_float:plus-sign-rejected"
         return "str_to_float:more-than-4ulp-or-error"
     if op == "fbatch":
+        if isinstance(got, dict) and got.get("err") == "encoding" and any(t.startswith("+") for t in c["rows"]):
+            return "str_to_float:plus-sign-rejected"
         return "str_to_float:row-depends-on-batch"
     if op == "column":
         return "column:" + ("text" if isinstance(got, dict) and got.get("lines") != exp["lines"] else "parsed-value")
